@@ -46,6 +46,9 @@ LEVEL_NOTE = ("Partial: the un-parser theorem parse(render inv) = denote inv is 
               "kernel, extraction, OCaml driver, Rust harness, generators.")
 
 VALS = [b"v", b"w", b"x1", b"1", b"0", b"zz", b"v=w", b"a.b", "é".encode(), b"3", b"=", b"e=", b"long-value", b"x y"]
+# values only an OsString-typed argument accepts: not well-formed UTF-8 (the grammar, and the split at the declared
+# delimiter, are byte-level: C02's "exactly the corresponding argv substrings" does not depend on the encoding)
+VALS_OS = [b"\xff", b"g\xe9n", b"a\xffb", b"\xc3", b"v\xc3\x28", b"\xe2\x82", b"x\xff="]
 SHORTS = "abcdefgijklmnopqrstuwxyz"
 LONGS = ["alpha", "beta", "gamma", "delta", "eps", "zeta", "eta", "theta", "iota", "kappa", "out", "opt", "al", "be"]
 SUBS = ["sub", "run", "test", "add", "rm", "ls"]
@@ -113,6 +116,8 @@ def gen_conv_cmd(rng, depth=0, path="p", stats=None):
                 a["num"] = (1, None)
             if rng.random() < 0.3:
                 a["delim"] = ","
+            if rng.random() < 0.2:
+                a["vp"] = "os"
         c["args"].append(a)
     npos = rng.randrange(0, 4)
     for k in range(npos):
@@ -123,6 +128,8 @@ def gen_conv_cmd(rng, depth=0, path="p", stats=None):
                 a["action"] = "append"
         if rng.random() < 0.3:
             a["delim"] = ","
+        if rng.random() < 0.2:
+            a["vp"] = "os"
         c["args"].append(a)
     if depth < 2 and rng.random() < 0.55:
         names = {"help"}
@@ -162,10 +169,11 @@ def render_level(rng, c, stats):
         sub_names.add(b"help")
 
     def value(a):
+        pool = VALS + VALS_OS if a.get("vp") == "os" else VALS
         for _ in range(20):
-            v = pick(rng, VALS)
+            v = pick(rng, pool)
             if a.get("delim") and rng.random() < 0.4:
-                v = v + b"," + pick(rng, VALS) + (b",," if rng.random() < 0.1 else b"")
+                v = v + b"," + pick(rng, pool) + (b",," if rng.random() < 0.1 else b"")
             if v not in sub_names and not v.startswith(b"-"):
                 return v
         return b"v"
